@@ -10,6 +10,7 @@ import (
 	"regexp/syntax"
 	"strings"
 
+	"github.com/jsightapi/jsight-schema-core/fs"
 	"github.com/jsightapi/jsight-schema-core/kit"
 	"github.com/jsightapi/jsight-schema-core/notations/jschema"
 	"github.com/jsightapi/jsight-schema-core/notations/regex"
@@ -292,7 +293,7 @@ func c18Text(r *mon.Run, text string, probes []string, witness []string) (accept
 		// in either order of calls
 		var accepting []string
 		if p := mon.Guard(func() {
-			fresh := regex.New("r", text)
+			fresh := regex.FromFile(fs.NewFile("r", []byte(text))) // the other public constructor
 			if n, e := fresh.Len(); e == nil {
 				accepting = append(accepting, fmt.Sprintf("Len() on a fresh object = %d", n))
 			}
